@@ -280,6 +280,31 @@ def run(repo, chk):
         if (v & cf.bits['DEFEAT']) == cf.bits['DEFEAT']:
             exp.add('DEFEAT')
         chk.expect(fl == exp, 'C06.T1', f'BlockContext({v}).flavors', f'{sorted(fl)} expected {sorted(exp)}', GRAMMAR)
+    # P1: the coroutine driver re-runs a routine every time it is awaited (no result reuse across contexts)
+    chk.rule('C06.P1', 'driver faithfulness: Parser.process creates a fresh coroutine per invocation and keeps no cache; Teleport only moves the position')
+    RULES = 'hidc/parser/rules.py'
+    pm = repo.methods(RULES, 'Parser')
+    proc = pm.get('process')
+    ok = proc is not None
+    if ok:
+        first = proc.body[0]
+        ok = isinstance(first, ast.Assign) and src(first) == 'coro = self.consume()'
+        names_used = {n.attr for n in ast.walk(proc) if isinstance(n, ast.Attribute) and isinstance(n.value, ast.Name) and n.value.id == 'self'}
+        ok = ok and names_used <= {'consume', 'backtrack'}
+        glob_names = {n.id for n in ast.walk(proc) if isinstance(n, ast.Name)} - {'coro', 'cur', 'start', 'result', 'ret', 'self', 'StopIteration', 'True', 'None'}
+        ok = ok and not glob_names
+    chk.expect(ok, 'C06.P1', 'Parser.process', 'must start a fresh coroutine (`coro = self.consume()`) and use no state besides '
+               'consume/backtrack: a memo keyed without the context would let the second parse of a ?? operand reuse the first', RULES)
+    rt = pm.get('routine')
+    t = src(rt) if rt is not None else ''
+    chk.expect('return cls(functools.partial(func, *args, **kwargs), expected=expected)' in t, 'C06.P1', 'Parser.routine',
+               'each call of a grammar routine builds a new rule bound to its own arguments (including ctx)', RULES)
+    mod_state = [src(n)[:50] for n in repo.module(RULES).body
+                 if isinstance(n, (ast.Assign, ast.AnnAssign)) and isinstance(getattr(n, 'value', None), (ast.Dict, ast.List, ast.Set, ast.Call))]
+    chk.expect(not mod_state, 'C06.P1', 'rules.py module state', f'module-level mutable state {mod_state}', RULES)
+    tp = repo.methods(RULES, 'Teleport').get('process')
+    chk.expect(tp is not None and [src(n.value) for n in ast.walk(tp) if isinstance(n, ast.Return)] == ['(start, self.node)'], 'C06.P1',
+               'Teleport.process', 'returns to the saved position', RULES)
     chk.exhaustive = True
     chk.not_decided = ['nothing: the context lattice is finite and fully explored; typing rules are C07']
 
